@@ -2,24 +2,71 @@ from vlib import H
 PROPERTY = 'C48'
 LEVEL = 'model_checking'
 CLAIM = ('wip')
+TPH = '_Z11TryParseHexIhESt8optionalISt6vectorIT_SaIS2_EEESt17basic_string_viewIcSt11char_traitsIcEE'
+# every heap allocation in these harnesses is asserted to be <= 32 bytes (rt.c VERIF_ALLOC_MAX), which removes the large size classes from infeasible vector-reallocation paths
+SMALL = ['-D', 'VERIF_ALLOC_MAX=32']
+D64 = '_Z12DecodeBase64St17basic_string_viewIcSt11char_traitsIcEE'
+D32 = '_Z12DecodeBase32St17basic_string_viewIcSt11char_traitsIcEE'
+def dec_unwind(fn, nchars):   # ConvertBits loop over a string whose end pointer is symbolic after '=' stripping: bound = characters + 2
+    return lambda v: '%s.0:%d,%s.1:%d' % (fn, nchars(v) + 2, fn, nchars(v) + 2)
+MONEY_FN = ['ParseMoney', 'util::TrimString', 'util::ContainsNoNUL', 'LocaleIndependentAtoi<int64_t>', 'std::from_chars (libstdc++ header)', 'MoneyRange']
+TXLINK = ['primitives/transaction.cpp', 'script/script.cpp', 'uint256.cpp', 'hash.cpp']
+TXFN = ['SerializeTransaction', 'UnserializeTransaction', 'CTxIn/CTxOut/COutPoint SERIALIZE_METHODS', 'VectorFormatter / prevector / vector<unsigned char> Serialize+Unserialize', 'WriteCompactSize/ReadCompactSize', 'DataStream', 'GetSerializeSize']
+TXST = ['CSHA256 replaced by a recording model (digest = sequence number of the hashed message; messages logged)', 'memory_cleanse no-op']
+def txs(nin, nout, wmask=0, **kw):
+    d = {'NIN': nin, 'NOUT': nout, 'WMASK': wmask}; d.update(kw); return d
+TXSHAPES = [txs(1, 1), txs(1, 1, 1), txs(2, 2, 2), txs(2, 1, 3), txs(2, 2), txs(1, 2, 1, SSLEN=0, PKLEN=0, WLEN=0), txs(0, 0)]
+TXSHAPES_T = TXSHAPES + [txs(3, 3, 5, WITEMS=2), txs(3, 1, 7, SSLEN=3, PKLEN=3, WLEN=3), txs(1, 1, 1, SSLEN=253, PKLEN=1, WLEN=1)]
+SE = ['util/strencodings.cpp', 'crypto/hex_base.cpp']
 HARNESSES = [
-    H('cs_write_read', 'compact.cpp', 'h_cs_write_read', unwind=12, timeout=120, objbits=10,
+    H('cs_write_read', 'compact.cpp', 'h_cs_write_read', unwind=12, timeout=120, objbits=10, diff_runs=16,
       functions=['WriteCompactSize<DataStream>', 'ReadCompactSize<DataStream>', 'GetSizeOfCompactSize', 'DataStream::read/write (streams.h)', 'ser_writedata*/ser_readdata* (serialize.h)'],
       stubs=['memory_cleanse (zeroing on free) is a no-op'],
       bounds='all 2^64 values in one query; range_check symbolic'),
-    H('cs_read_all', 'compact.cpp', 'h_cs_read_all', variants=[{'LEN': l} for l in (0, 1, 2, 3, 4, 5, 8, 9)], unwind=12, timeout=120, objbits=10,
+    H('cs_read_all', 'compact.cpp', 'h_cs_read_all', variants=[{'LEN': l} for l in (0, 1, 2, 3, 4, 5, 8, 9)], unwind=12, timeout=120, objbits=10, diff_runs=16,
       functions=['ReadCompactSize<DataStream>'], stubs=['memory_cleanse (zeroing on free) is a no-op'],
       bounds='all byte strings of length 0,1,2,3,4,5,8,9 (every truncation class and the full 9-byte domain); range_check symbolic'),
-    H('varint_write_read', 'varint.cpp', 'h_varint_write_read', variants=[{'ITYPE': t} for t in range(4)], unwind=12, timeout=120, objbits=10,
+    H('varint_write_read', 'varint.cpp', 'h_varint_write_read', variants=[{'ITYPE': t} for t in range(4)], unwind=12, timeout=120, objbits=10, diff_runs=16,
       functions=['WriteVarInt<DataStream,Mode,I>', 'ReadVarInt<DataStream,Mode,I>', 'GetSizeOfVarInt<Mode,I>'], stubs=['memory_cleanse (zeroing on free) is a no-op'],
       bounds='all values of uint64_t, uint32_t (DEFAULT) and all non-negative int64_t, int32_t (NONNEGATIVE_SIGNED)'),
     H('varint_read_all', 'varint.cpp', 'h_varint_read_all', variants=[{'ITYPE': 0, 'LEN': 10}, {'ITYPE': 1, 'LEN': 6}, {'ITYPE': 2, 'LEN': 10}, {'ITYPE': 3, 'LEN': 6}, {'ITYPE': 0, 'LEN': 3}, {'ITYPE': 0, 'LEN': 0}],
-      unwind=12, timeout=120, objbits=10, functions=['ReadVarInt<DataStream,Mode,I>'], stubs=['memory_cleanse (zeroing on free) is a no-op'],
+      unwind=12, timeout=120, objbits=10, diff_runs=16, functions=['ReadVarInt<DataStream,Mode,I>'], stubs=['memory_cleanse (zeroing on free) is a no-op'],
       bounds='all byte strings of length 10 (64-bit types; longest possible encoding), 6 (32-bit types; one more than the longest encoding), 3 and 0'),
-    H('hex_roundtrip', 'hex.cpp', 'h_hex_roundtrip', link=['util/strencodings.cpp', 'crypto/hex_base.cpp'], variants=[{'N': n} for n in (0, 1, 3)], tvariants=[{'N': n} for n in (0, 1, 2, 3, 4, 6, 8)],
-      unwind=20, timeout=120, objbits=10, functions=['HexStr (crypto/hex_base.cpp)', 'TryParseHex<uint8_t>', 'IsHex', 'HexDigit'],
+    H('hex_roundtrip', 'hex.cpp', 'h_hex_roundtrip', link=['util/strencodings.cpp', 'crypto/hex_base.cpp'], variants=[{'NB': n} for n in (0, 1, 3)], tvariants=[{'NB': n} for n in (0, 1, 2, 3, 4, 6, 8)],
+      unwind=18, unwindset=lambda v: '%s.0:%d,%s.1:%d' % (TPH, 2 * v['NB'] + 2, TPH, 2 * v['NB'] + 2), memunwind=10, cbmc=SMALL, timeout=120, objbits=10, diff_runs=16, functions=['HexStr (crypto/hex_base.cpp)', 'TryParseHex<uint8_t>', 'IsHex', 'HexDigit'],
       bounds='all byte strings of length 0,1,3 (thorough: up to 8)'),
-    H('hex_parse_all', 'hex.cpp', 'h_hex_parse_all', link=['util/strencodings.cpp', 'crypto/hex_base.cpp'], variants=[{'L': l} for l in (0, 1, 2, 3, 4)], tvariants=[{'L': l} for l in (0, 1, 2, 3, 4, 5, 6)],
-      unwind=20, timeout=120, objbits=10, functions=['TryParseHex<uint8_t>', 'ParseHex<uint8_t>', 'IsHex', 'HexDigit', 'IsSpace'],
+    H('hex_parse_all', 'hex.cpp', 'h_hex_parse_all', link=['util/strencodings.cpp', 'crypto/hex_base.cpp'], variants=[{'NC': l} for l in (0, 1, 2, 3, 4)], tvariants=[{'NC': l} for l in (0, 1, 2, 3, 4, 5, 6)],
+      unwind=8, unwindset=lambda v: '%s.0:%d,%s.1:%d' % (TPH, v['NC'] + 2, TPH, v['NC'] + 2), memunwind=10, cbmc=SMALL, diff_runs=16, timeout=120, objbits=10, functions=['TryParseHex<uint8_t>', 'ParseHex<uint8_t>', 'IsHex', 'HexDigit', 'IsSpace'],
       bounds='all character strings (256 values per character) of length 0..4 (thorough: 0..6)'),
+    H('b64_roundtrip', 'basenn.cpp', 'h_b64_roundtrip', link=SE, variants=[{'NB': n} for n in (0, 1, 2, 3, 4)], tvariants=[{'NB': n} for n in range(0, 10)],
+      unwind=20, unwindset=dec_unwind(D64, lambda v: 4 * ((v['NB'] + 2) // 3)), memunwind=12, cbmc=SMALL, opt='-O2', diff_runs=16, timeout=120, objbits=10, functions=['EncodeBase64', 'DecodeBase64', 'ConvertBits<8,6,true>', 'ConvertBits<6,8,false>'],
+      bounds='all byte strings of length 0..4 (thorough: 0..9)'),
+    H('b64_decode_all', 'basenn.cpp', 'h_b64_decode_all', link=SE, variants=[{'NC': n} for n in (0, 3, 4, 8)], tvariants=[{'NC': n} for n in (0, 1, 2, 3, 4, 5, 8, 12)],
+      unwind=20, unwindset=dec_unwind(D64, lambda v: v['NC']), memunwind=12, cbmc=SMALL, opt='-O2', diff_runs=16, timeout=120, objbits=10, functions=['DecodeBase64', 'ConvertBits<6,8,false>'],
+      bounds='all character strings (256 values per character) of length 0,3,4,8 (thorough: also 1,2,5,12)'),
+    H('b32_roundtrip', 'basenn.cpp', 'h_b32_roundtrip', link=SE, variants=[{'NB': n} for n in (0, 1, 2, 3, 4, 5)] + [{'NB': n, 'NOPAD': 1} for n in (1, 4)], tvariants=[{'NB': n} for n in range(0, 11)] + [{'NB': n, 'NOPAD': 1} for n in range(0, 11)],
+      unwind=20, unwindset=dec_unwind(D32, lambda v: 8 * ((v['NB'] + 4) // 5)), memunwind=12, cbmc=SMALL, opt='-O2', diff_runs=16, timeout=120, objbits=10, functions=['EncodeBase32', 'DecodeBase32', 'ConvertBits<8,5,true>', 'ConvertBits<5,8,false>'],
+      bounds='all byte strings of length 0..5 padded, 1 and 4 unpadded (thorough: 0..10 both)'),
+    H('b32_decode_all', 'basenn.cpp', 'h_b32_decode_all', link=SE, variants=[{'NC': n} for n in (0, 7, 8)], tvariants=[{'NC': n} for n in (0, 7, 8, 16)],
+      unwind=20, unwindset=dec_unwind(D32, lambda v: v['NC']), memunwind=12, cbmc=SMALL, opt='-O2', diff_runs=16, timeout=120, objbits=10, functions=['DecodeBase32', 'ConvertBits<5,8,false>'],
+      bounds='all character strings (256 values per character) of length 0,7,8 (thorough: also 16)'),
+    H('money_parse_all', 'money.cpp', 'h_money_parse_all', link=['util/moneystr.cpp'], variants=[{'NC': n} for n in (0, 1, 2, 3)],
+      unwind=6, memunwind=8, cbmc=SMALL, opt='-O2', diff_runs=16, timeout=180, objbits=10, nofmt=True, functions=MONEY_FN,
+      bounds='all character strings (256 values per character) of length 0..3'),
+    H('money_parse_all_t', 'money.cpp', 'h_money_parse_all', link=['util/moneystr.cpp'], variants=[{'NC': n} for n in (4, 5)], tier='thorough',
+      unwind=8, memunwind=8, cbmc=SMALL, opt='-O2', diff_runs=16, timeout=900, objbits=10, nofmt=True, functions=MONEY_FN,
+      bounds='all character strings (256 values per character) of length 4..5'),
+    H('money_digits_short', 'money.cpp', 'h_money_digits', link=['util/moneystr.cpp'], variants=[{'W': 1, 'F': 2}, {'W': 0, 'F': 0, 'DOT': 1}, {'W': 3, 'F': 0}],
+      unwind=7, memunwind=8, cbmc=SMALL, opt='-O2', diff_runs=16, timeout=180, objbits=10, nofmt=True, functions=MONEY_FN,
+      bounds='digit strings d.dd, "." and ddd, all digit values'),
+    H('money_digits', 'money.cpp', 'h_money_digits', link=['util/moneystr.cpp'], variants=[{'W': 8, 'F': 0, 'PIN': 2100000}, {'W': 8, 'F': 8, 'PIN': 2100000, 'PINF': 1}, {'W': 1, 'F': 9}, {'W': 11, 'F': 0, 'PIN': 1000000000}],
+      unwind=20, memunwind=20, cbmc=SMALL, opt='-O2', diff_runs=16, timeout=180, objbits=10, nofmt=True, functions=MONEY_FN,
+      bounds='digit strings of shape W whole digits . F decimals, all digit values: (8,8) covers every amount below 1e8 coins at satoshi precision incl. the 21,000,000 coin / MAX_MONEY+1 boundary; (2,9) and (11,0) the length limits (thorough: W in 0,1,7..11 x F in 0,2,8,9)'),
+    H('tx_roundtrip', 'tx.cpp', 'h_tx_roundtrip', link=TXLINK, variants=TXSHAPES, tvariants=TXSHAPES_T,
+      unwind=260, memunwind=260, timeout=300, objbits=11, diff_runs=16, cbmc=['--max-field-sensitivity-array-size', '1100'], functions=TXFN, stubs=TXST,
+      bounds='shapes (nin, nout, witness mask, script lengths) listed in spec.py: nin,nout <= 2, scripts <= 2 bytes, witness stacks <= 1 item of 2 bytes (thorough: <= 3 inputs/outputs, 2 items, 3-byte scripts, 253-byte script => 3-byte compact size); all scalar fields and all script/witness/hash bytes symbolic',
+      assumptions=['nin >= 1, or nin == nout == 0: a transaction without inputs but with outputs has no unambiguous TX_WITH_WITNESS encoding (documented marker ambiguity, BIP144)']),
+    H('tx_ids', 'tx.cpp', 'h_tx_ids', link=TXLINK, variants=TXSHAPES[:4], tvariants=TXSHAPES,
+      unwind=260, memunwind=260, timeout=300, objbits=11, diff_runs=16, cbmc=['--max-field-sensitivity-array-size', '1100'], functions=TXFN + ['CTransaction::ComputeHash', 'CTransaction::ComputeWitnessHash', 'HashWriter::write/GetHash'], stubs=TXST,
+      bounds='same shapes; digest values abstracted by the recording model'),
 ]
